@@ -7,6 +7,13 @@ E1_NOTE = ("trusted: rustc, the reference bit-slice decoder (DESIGN.md App. A la
            "vectors), the structural assumption that readers are fixed-width and dispatch depends on DF/TC/subtype/BDS id only (probed by bit-walks)")
 
 CLAIMS = {
+ "C02": dict(cat="exploration", tech="exhaustive enumeration of 32 DF codes x buffer lengths 0..=32 x contexts x garbage tails and of every dispatch leaf (bit-walk, field sweeps) on the real decoder vs reference acceptance predicate; exact-vs-extended differential",
+             text="acceptance set, length discipline and tail-independence decided on every format code, every length and every dispatch leaf under a context alphabet; payload bits beyond the alphabet are not enumerated", ref="3 C02", note=E1_NOTE),
+ "C03": dict(cat="model_checking", tech="explicit-state enumeration of the checksum automaton's complete transition relation (2^24 remainders x 256 bytes, thorough; states reachable in two bytes, quick) on the real function via hook vs bit-serial division; exhaustive error-pattern enumeration (weight<=5, bursts<=24); Frame.crc on every dispatch leaf",
+             text="complete transition relation of the table-driven remainder automaton => equality with polynomial division for all frames by induction on length; public-API checksum on every seek pattern; exhaustive low-weight/burst error patterns", ref="3 C03",
+             note="trusted: bit-serial reference division; the hook re-exposes the private function unchanged; induction over length assumes the loop is a fold of one step (probed at n=7 and n=14)"),
+ "C07": dict(cat="exploration", tech="exhaustive enumeration of the velocity payload lattice (all field values, joint (dir,vel,dir,vel) sweep, all 2^11 vertical-rate codes) on the real decoder and calculate() vs reference arithmetic",
+             text="fields complete per field; derived velocity complete over the 2^22 joint space in the thorough tier (boundary+stride quick) and all rate codes", ref="3 C07", note=E1_NOTE),
  "C04": dict(cat="exploration", tech="exhaustive bounded enumeration of the input lattice (per dispatch leaf: bit-walk, full field sweeps, boundary pairs, contexts) on the real decoder vs reference bit-slice decoder; all 2^24 addresses for the text round trip",
              text="every header/address/trailing field of every dispatch leaf compared with an independent bit-slice reference on a closed lattice of inputs; complete over each field up to 13/17 bits and over all 2^24 address texts", ref="3 C04", note=E1_NOTE),
  "C06": dict(cat="exploration", tech="exhaustive enumeration of all 8192/4096 altitude codes in every carrier x contexts x bit-walk on the real decoder vs Gillham table built from the definition",
